@@ -250,6 +250,17 @@ func rcGen(r *rng.R, id int, o rcOpts) *rcCase {
 		sb.WriteString("\t" + p + "Emb\n")
 		tb.WriteString("\tq." + p + "Emb\n")
 	}
+	// an embedded POINTER struct in the source whose field name exists only there: not a source field of the outer struct
+	// (no promotion through embedded structs), so the target field is missing — or skipped under ignoreMissing
+	embPtr := r.Chance(12)
+	if embPtr {
+		ty.WriteString(fmt.Sprintf("type %sAud struct {\n\tCreatedBy string\n}\n", p))
+		sb.WriteString("\t*" + p + "Aud\n")
+		tb.WriteString("\tCreatedBy string\n")
+		if r.Chance(70) {
+			forced = append(forced, "ignoreMissing")
+		}
+	}
 	// a method of the by-value sub struct found through autoMap
 	autoVal := r.Chance(14)
 	if autoVal {
